@@ -408,11 +408,16 @@ func TestC04Binary(t *testing.T) {
 			want, _, _, _, _ := d.Authenticate(r.storeName, p.PW)
 			vlib.Eval()
 			if r.terr != nil {
-				t.Fatalf("VIOLATION C04: transport error instead of a verdict on %s for user %s among %d concurrent probes: %v\nagent log:\n%s", r.fe, vlib.Q(r.name), len(c.Probes), r.terr, tail(a.log(), 1500))
+				msg := fmt.Sprintf("transport error instead of a verdict on %s for user %s among %d concurrent probes: %v", r.fe, vlib.Q(r.name), len(c.Probes), r.terr)
+				vlib.Violation(msg, "TestC04Binary", map[string]any{"case": c, "probe": i})
+				t.Fatalf("VIOLATION C04: %s\nagent log:\n%s", msg, tail(a.log(), 1500))
 			}
 			if r.got != want {
-				t.Fatalf("VIOLATION C04: %s returned accept=%v for user %s password %s while %d probes ran concurrently; the store's verdict for (%s) is %v [probe #%d %s] %s",
+				// schedule-dependent by nature: recorded by the harness itself, so that a re-run that happens to pass does not turn it into "flaky"
+				msg := fmt.Sprintf("%s returned accept=%v for user %s password %s while %d probes ran concurrently; the store's verdict for (%s) is %v [probe #%d %s] %s",
 					r.fe, r.got, vlib.Q(r.name), vlib.Q(p.PW), len(c.Probes), vlib.Q(r.storeName), want, i, p.Kind, r.detail)
+				vlib.Violation(msg, "TestC04Binary", map[string]any{"case": c, "probe": i})
+				t.Fatalf("VIOLATION C04: %s", msg)
 			}
 			vlib.NT("c04bb-concurrent", r.fe, p.Kind, want)
 		}
